@@ -140,3 +140,25 @@ Fixpoint minimax (d : nat) (p : pos) (depth : Z) : result Z :=
         fold_left (fun acc m => do a <- acc; do p' <- make_legal p (rm m); do v <- minimax k p' (depth + 1); Ok (Z.max a (- v))) r (Ok (- v0))
     end
   end.
+
+(* minimax value together with "some quiescence node of the whole depth-d tree is lazy-sensitive" (the deviation C04 admits) *)
+Fixpoint mm_quiesce_s (fuel : nat) (p : pos) (depth : Z) : result (Z * bool) :=
+  match fuel with O => Panic P_FUEL | S f =>
+    let sp := evaluate p depth in
+    do tms <- gen_tactical p;
+    fold_left (fun acc m => do a <- acc; do p' <- make_legal p (rm m); do v <- mm_quiesce_s f p' (depth + 1);
+                            Ok (Z.max (fst a) (- fst v), snd a || snd v)) tms (Ok (sp, lazy_sensitive p depth))
+  end.
+Fixpoint minimax_s (d : nat) (p : pos) (depth : Z) : result (Z * bool) :=
+  match d with
+  | O => mm_quiesce_s qfuel p depth
+  | S k =>
+    do ms <- gen_legal p;
+    match ms with
+    | [] => Ok (terminal_score p depth, false)
+    | m0 :: r =>
+        do p0 <- make_legal p (rm m0); do v0 <- minimax_s k p0 (depth + 1);
+        fold_left (fun acc m => do a <- acc; do p' <- make_legal p (rm m); do v <- minimax_s k p' (depth + 1);
+                                Ok (Z.max (fst a) (- fst v), snd a || snd v)) r (Ok (- fst v0, snd v0))
+    end
+  end.
